@@ -9,11 +9,23 @@ Every vector is fed to a real Redis processor: client side frames over a downstr
 as the simulated node's answer to the request that makes the proxy parse them. Oracle (the property): the process
 hosting the proxy survives, another connection is served, the offending/waiting client gets a reply or its connection
 is closed, the affected backend becomes usable again, stack and heap stay bounded.
+Runs (spec/redis/DecodeStack.tla + the Run vectors of Malformed.tla): the decoder as a machine over a STREAM of units with the
+number of live decoder activations as state; invariant StackBounded (the stack never depends on the length of a run); the
+tolerant-decoder variants (blank lines / empty frames skipped by recursion, no nesting limit) must violate it. Every run
+(unit class blank | empty | cmd x count 3 .. 8*10^6) is sent by a client and, for blank units, by a backend, every time.
+Backend connection faults (spec/redis/BackendFault.tla): one backend connection with the ASKING hand-over of loopWrite made
+explicit, a slow backend (owes QCap replies) and the faults eof | rst | garbage | stop | remove; invariants NoCrash, AtMostOnce,
+NoLost, PairingFIFO; the broken exits of the hand-over ("fail-label", "drop") must violate them. The exhaustive run emits the
+strata window x fault (windows: ask-handover-blocked, ask-handoff-blocked, ask-queued-blocked, ask-inflight, plain-blocked,
+plain-inflight); all 30 are replayed on a real processor every run (harness c11-fault), the window confirmed from the hook
+points of the real connection and from what the node received; oracle as above plus: every waiting client gets its replies
+or a close.
+Spec modules owned: spec/redis/Malformed.tla, DecodeStack.tla, BackendFault.tla and their MC_*.cfg.
 This is exploration with a TLA+-generated corpus: the structural partition is exhaustive, the byte strings are not.
 """
+import concurrent.futures
 import json
 import os
-import subprocess
 
 import kit
 
@@ -21,49 +33,134 @@ LEVEL = "exploration"
 
 STACK_LIMIT_MB = 64      # the deepest legitimate reply nests a handful of levels
 HEAP_LIMIT_MB = 1500     # 512 MiB bulk limit + 1M element array limit, with head room
+QCAP_CODE = 1024         # capacity of client.processingReqs (proc/redis/upstream.go newClient)
+MANDATORY = ["ask-handover-blocked", "ask-handoff-blocked", "ask-queued-blocked", "ask-inflight", "plain-blocked", "plain-inflight"]
+FAULTS = ["eof", "rst", "garbage", "stop", "remove"]
+SHARDS = 4               # harness processes that share the vectors
 
 
 def run(ctx):
     ctx.build()
     ctx.assumptions += ["the byte space is covered by a structural partition, not exhaustively (a coverage-guided fuzzer would be the natural tool for the residual; outside this technique family)",
-                        "memory bound: %d MiB heap, %d MiB stack for any single frame" % (HEAP_LIMIT_MB, STACK_LIMIT_MB)]
-    r = ctx.mc("redis", "Malformed", "MC_Malformed.cfg", workers=1, timeout=300)
-    vecs = [p for (tag, p) in r.prints if tag == "VEC"]
-    if len(vecs) < 200:
-        raise kit.Inconclusive("only %d vectors emitted" % len(vecs))
-    if not ctx.thorough:
-        # quick tier: every backend-side vector, client side vectors thinned deterministically by the seed
-        vecs = [v for i, v in enumerate(vecs) if v["side"] == "backend" or (i + ctx.seed) % 2 == 0 or v["form"] == "big"]
-    vfile = os.path.join(ctx.work, "vectors.ndjson")
-    kit.write_ndjson(vfile, vecs)
-    rfile = os.path.join(ctx.work, "results.ndjson")
+                        "memory bound: %d MiB heap, %d MiB stack for any single frame and for any run of frames; heap samples above 900 MiB are confirmed after a garbage "
+                        "collection (buffers of connections that are already closed are not the proxy's memory use; how long they linger is GC timing)" % (HEAP_LIMIT_MB, STACK_LIMIT_MB),
+                        "BackendFault.tla: the capacity of processingReqs is %d in the code (QCap = 2 in the model); a stratum whose window is not confirmed "
+                        "from the hook points of the real connection is not counted" % QCAP_CODE]
+    # the small models run beside the replays (each is a JVM start of about a second)
+    pool = concurrent.futures.ThreadPoolExecutor(max_workers=3)
+    side = [pool.submit(models, ctx)]
+    try:
+        r = ctx.mc("redis", "Malformed", "MC_Malformed.cfg", workers=1, timeout=300)
+        vecs = [p for (tag, p) in r.prints if tag == "VEC"]
+        if len(vecs) < 200:
+            raise kit.Inconclusive("only %d vectors emitted" % len(vecs))
+        strata = fault_strata(ctx)
+        # the replays run side by side: the strata in one process, the vectors in SHARDS processes (each hosts its own proxy)
+        fs = pool.submit(drive, ctx, "c11-fault", strata, os.path.join(ctx.work, "fault-results.ndjson"))
+        run_vectors(ctx, vecs)
+        run_strata(ctx, strata, *fs.result())
+    finally:
+        # violations observed on the real code stand over trouble with the models
+        try:
+            for f in side:
+                f.result()
+        finally:
+            pool.shutdown(wait=True)
+    ctx.cov["rule"] = ("one case per vector of Malformed.tla (side x parsing context x form x payload class; runs: unit x count), distinct by payload, "
+                       "every vector is parsed by the real code in the context it names; one case per stratum of BackendFault.tla "
+                       "(window x fault) whose window was confirmed on the real connection")
+
+
+def models(ctx):
+    """DecodeStack.tla (stack of the decoder over a run of units) and the broken variants of BackendFault.tla:
+    the code's policies satisfy the invariants, every broken policy violates them, the windows are reachable."""
+    for cfg, exp in (("code", None), ("blankloop", None), ("blankrecurse", ["StackBounded"]), ("emptyrecurse", ["StackBounded"]),
+                     ("nolimit", ["StackBounded"]), ("win_norun", ["NotW_LongRunNoFrame"]), ("win_frames", ["NotW_LongRunOfFrames"])):
+        ctx.mc("redis", "DecodeStack", "MC_DecodeStack_%s.cfg" % cfg, workers=1, timeout=120, expect_violated=exp, count=(exp is None))
+    for cfg, exp in (("faillabel", ["NoCrash"]), ("drop", ["NoLost"]), ("win_askquit", ["NotW_AskHandoverQuit"])):
+        ctx.mc("redis", "BackendFault", "MC_BackendFault_%s.cfg" % cfg, workers=1, timeout=120, expect_violated=exp, count=False)
+
+
+def fault_strata(ctx):
+    """BackendFault.tla, exhaustive: the invariants hold for the code's exits; every transition in which a fault strikes a
+    silent backend in a mandatory window prints its stratum. One replay per (window, fault): the instance in which the
+    backend owes the fewest replies, mapped from the model's capacity to the code's."""
+    r = ctx.mc("redis", "BackendFault", "MC_BackendFault_code%s.cfg" % ("_thorough" if ctx.thorough else ""), workers=4, timeout=600)
+    best = {}
+    for tag, p in r.prints:
+        if tag != "STRATUM":
+            continue
+        k = (p["win"], p["fault"])
+        if k not in best or p["owed"] < best[k]["owed"]:
+            best[k] = p
+    missing = [(w, f) for w in MANDATORY for f in FAULTS if (w, f) not in best]
+    if missing:
+        raise kit.Inconclusive("BackendFault.tla does not reach the mandatory strata %s" % missing[:6])
+    strata = []
+    for k in sorted(best):
+        p = dict(best[k])
+        if p["win"].endswith("-blocked"):
+            p["owed"] = p["owed"] - p["qcap"] + QCAP_CODE
+        strata.append(p)
+    if ctx.thorough:
+        # the unblocked ASKING hand-over is a narrow race: it cannot be forced from outside, strike at random moments
+        strata += [{"win": "ask-handover-race", "fault": f, "owed": o, "askingOnWire": False, "askOnWire": False, "rep": i}
+                   for f in FAULTS for o in (0, QCAP_CODE - 2) for i in range(12)]
+    return strata
+
+
+def drive(ctx, sub, items, rfile, extra_env=None):
+    """Run a sub-command of the harness over items (ndjson); the harness process hosts the proxy: when it dies, the item
+    that was started and not finished killed it - report and restart behind it. Returns (records, [(item index, stderr)])."""
+    ifile = rfile.replace("results", "items")
+    kit.write_ndjson(ifile, items)
     if os.path.exists(rfile):
         os.remove(rfile)
     skip = 0
-    crashes = 0
-    while skip < len(vecs):
-        rc, so, se = ctx.harness(["c11-run", "-in", vfile, "-out", rfile, "-skip", str(skip)], timeout=1800, allow_fail=True,
-                                 env={"GOMEMLIMIT": "off"})
+    deaths = []
+    while skip < len(items):
+        rc, so, se = ctx.harness([sub, "-in", ifile, "-out", rfile, "-skip", str(skip)], timeout=1800, allow_fail=True, env=extra_env)
         recs = kit.read_ndjson(rfile) if os.path.exists(rfile) else []
         started = [x["start"] for x in recs if x.get("start")]
         finished = [x["id"] for x in recs if x.get("id")]
         if rc == 0:
             break
-        # the process hosting the proxy died: the vector that was started and not finished killed it
-        crashes += 1
         culprit = started[-1] if started and (not finished or finished[-1] != started[-1]) else None
         if culprit is None:
-            raise kit.Inconclusive("c11-run exited %d outside a vector: %s" % (rc, se[-1500:]))
-        v = vecs[culprit - 1]
-        why = "panic" if "panic:" in se else ("fatal error" if "fatal error" in se else "exit %d" % rc)
-        m = [l for l in se.splitlines() if l.startswith("panic:") or l.startswith("fatal error")]
-        ctx.violation("crash/%s/%s/%s" % (v["side"], v["ctx"], classify(v)),
-                      "the process hosting the proxy died (%s) on %s/%s %r" % (m[0] if m else why, v["side"], v["ctx"], short(v)),
-                      {"vector": v, "stderr_tail": se[-3000:]})
+            raise kit.Inconclusive("%s exited %d outside a case: %s" % (sub, rc, se[-1500:]))
+        deaths.append((culprit - 1, rc, se))
         skip = culprit
-        if crashes > 60:
+        if len(deaths) > 60:
             raise kit.Inconclusive("too many crashes")
-    recs = [x for x in kit.read_ndjson(rfile) if x.get("id")]
+    recs = [x for x in kit.read_ndjson(rfile) if x.get("id")] if os.path.exists(rfile) else []
+    return recs, deaths
+
+
+def died(rc, se):
+    why = "panic" if "panic:" in se else ("fatal error" if "fatal error" in se else "exit %d" % rc)
+    m = [l for l in se.splitlines() if l.startswith("panic:") or l.startswith("fatal error")]
+    return m[0] if m else why
+
+
+def run_vectors(ctx, vecs):
+    if not ctx.thorough:
+        # quick tier: every backend-side vector, client side vectors thinned deterministically by the seed; the long
+        # frames and the runs (form "big") are mandatory
+        vecs = [v for i, v in enumerate(vecs) if v["side"] == "backend" or (i + ctx.seed) % 2 == 0 or v["form"] == "big"]
+    # shard k executes the vectors k, k + SHARDS, ...; ids are mapped back to positions in vecs
+    with concurrent.futures.ThreadPoolExecutor(max_workers=SHARDS) as tp:
+        parts = list(tp.map(lambda k: drive(ctx, "c11-run", vecs[k::SHARDS], os.path.join(ctx.work, "results-%d.ndjson" % k), {"GOMEMLIMIT": "off"}),
+                            range(SHARDS)))
+    recs, deaths = [], []
+    for k, (rs, ds) in enumerate(parts):
+        recs += [dict(x, id=(x["id"] - 1) * SHARDS + k + 1) for x in rs]
+        deaths += [(idx * SHARDS + k, rc, se) for idx, rc, se in ds]
+    recs.sort(key=lambda x: x["id"])
+    for idx, rc, se in deaths:
+        v = vecs[idx]
+        ctx.violation("crash/%s/%s/%s" % (v["side"], v["ctx"], classify(v)),
+                      "the process hosting the proxy died (%s) on %s/%s %r" % (died(rc, se), v["side"], v["ctx"], short(v)),
+                      {"vector": v, "stderr_tail": se[-3000:]})
     for x in recs:
         v = vecs[x["id"] - 1]
         ctx.case(key=[v["side"], v["ctx"], v["form"], json.dumps(v["payload"])[:200]], nontrivial=True)
@@ -90,13 +187,60 @@ def run(ctx):
             ctx.violation("memory-unbounded/%s/%s/%s" % (v["side"], v["ctx"], cls), "%s: %d MiB of heap in use" % (x["vec"], x["heapMB"]), {"vector": v, "result": x})
         if not bad:
             ctx.cov["traces_validated_against_impl"] += 1
-    if len(recs) + crashes < len(vecs) * 0.95:
+    if len(recs) + len(deaths) < len(vecs) * 0.95:
         raise kit.Inconclusive("only %d of %d vectors executed" % (len(recs), len(vecs)))
-    ctx.cov["crashes"] = crashes
+    runs = [x for x in recs if isinstance(vecs[x["id"] - 1]["payload"], dict) and vecs[x["id"] - 1]["payload"].get("kind") == "repeat"]
+    ctx.cov["runs_replayed"] = len(runs)
+    ctx.cov["crashes"] = len(deaths)
     for x in recs[:: max(1, len(recs) // 5)]:
         ctx.sample(x)
-    ctx.cov["rule"] = ("one case per vector of Malformed.tla (side x parsing context x form x payload class); distinct by payload; every vector is non-trivial "
-                       "(it is parsed by the real code in the context it names)")
+
+
+def run_strata(ctx, strata, recs, deaths):
+    for idx, rc, se in deaths:
+        s = strata[idx]
+        ctx.violation("crash/backend-fault/%s/%s" % (s["win"], s["fault"]),
+                      "the process hosting the proxy died (%s): backend owes %d replies, window %s, fault %s" % (died(rc, se), s["owed"], s["win"], s["fault"]),
+                      {"stratum": s, "stderr_tail": se[-3000:]})
+    reached = set((strata[idx]["win"], strata[idx]["fault"]) for idx, _, _ in deaths)
+    for x in recs:
+        s = strata[x["id"] - 1]
+        sig = "%s/%s" % (s["win"], s["fault"])
+        if x.get("err"):
+            ctx.notes.append("stratum %s: %s" % (sig, x["err"]))
+            continue
+        if not x.get("window"):
+            if s["win"] in MANDATORY:
+                ctx.notes.append("stratum %s: window not reached (%s)" % (sig, x.get("windowWhy")))
+                continue
+        else:
+            reached.add((s["win"], s["fault"]))
+        ctx.case(key=["backend-fault", s["win"], s["fault"], s["owed"], s.get("rep", 0)], nontrivial=bool(x.get("window")))
+        bad = False
+        if x.get("ask") == "timeout" or x.get("fillers"):
+            bad = True
+            ctx.violation("wedged/backend-fault/%s" % sig, "a waiting client got neither a reply nor a close within 8 s (redirected request: %s; %s)"
+                          % (x.get("ask"), x.get("fillers")), {"stratum": s, "result": x})
+        if x.get("witness"):
+            bad = True
+            ctx.violation("other-connections-not-served/backend-fault/%s" % sig, x["witness"], {"stratum": s, "result": x})
+        if x.get("recover"):
+            bad = True
+            ctx.violation("backend-not-usable-again/backend-fault/%s" % sig, x["recover"], {"stratum": s, "result": x})
+        if x.get("stop"):
+            # whether Stop returns is C09's property; here it is only recorded
+            ctx.notes.append("stratum %s: %s" % (sig, x["stop"]))
+        if x["stackMB"] > STACK_LIMIT_MB or x["heapMB"] > HEAP_LIMIT_MB:
+            bad = True
+            ctx.violation("memory-unbounded/backend-fault/%s" % sig, "%d MiB of stack, %d MiB of heap in use" % (x["stackMB"], x["heapMB"]), {"stratum": s, "result": x})
+        if not bad and x.get("window"):
+            ctx.cov["traces_validated_against_impl"] += 1
+    ctx.cov["fault_strata_reached"] = len(reached)
+    missing = [(w, f) for w in MANDATORY for f in FAULTS if (w, f) not in reached]
+    if missing:
+        raise kit.Inconclusive("mandatory strata of BackendFault.tla not exercised on the code: %s" % missing[:8])
+    for x in recs[:: max(1, len(recs) // 3)]:
+        ctx.sample(x)
 
 
 def short(v):
@@ -107,6 +251,8 @@ def short(v):
 def classify(v):
     """stable class name of a vector for signatures"""
     p = v["payload"]
+    if isinstance(p, dict) and p.get("kind") == "repeat":
+        return "run-%s-x%d" % (p["name"], p["n"])
     if isinstance(p, dict) and "shape" in p:
         return "cps-%s-%s" % (p["shape"], "".join(ch if ch.isalnum() else "_" for ch in p["val"])[:16])
     if isinstance(p, dict):
